@@ -1,13 +1,15 @@
-"""Copy finished sub-agent mutants from /tmp/mut/Cxx/MUTANTk into /verif/seeded/Cxx-mk (patch.diff, demo.py, meta.json)."""
+"""Copy finished sub-agent mutants from <src>/Cxx/MUTANTk into /verif/seeded/Cxx-m(k+offset) (patch.diff, demo.py, meta.json).
+usage: python -m harness.import_seeded [src-dir [offset]]"""
 import json, shutil, sys
 from pathlib import Path
-src = Path("/tmp/mut")
+src = Path(sys.argv[1] if len(sys.argv) > 1 else "/tmp/mut")
+offset = int(sys.argv[2]) if len(sys.argv) > 2 else 0
 dst = Path("/verif/seeded")
 for pdir in sorted(src.glob("C??")):
     for m in sorted(pdir.glob("MUTANT*")):
         if not ((m / "patch.diff").exists() and (m / "meta.json").exists()):
             continue
-        name = f"{pdir.name}-m{m.name[-1]}"
+        name = f"{pdir.name}-m{int(m.name[-1]) + offset}"
         out = dst / name
         if out.exists():
             continue
